@@ -4,4 +4,4 @@ From C26 Require Import Model ModelSkip.
 Extraction "model.ml" drv_b2n drv_n2b drv_z_of_n drv_n_of_z drv_nat_of_n drv_n_of_nat
   fixed prefix mkest wf epoch_of announce_epoch announce_config get_epoch_data get_config
   enough_fuel spec_epoch_data spec_config announced on_chain alookup depth valid_hdr genesis_id
-  get_skipped_epoch_data get_skipped_config x_init x_announce_epoch x_announce_config x_restart.
+  get_skipped_epoch_data get_skipped_config x_init x_announce_epoch x_announce_config x_restart update_skipped.
